@@ -19,7 +19,7 @@ import (
 // Fault enumeration: for every position at which a compaction delete can fail, and for every
 // position after which the compactor can die, on a freshly rebuilt identical store.
 
-var c07Engines = []string{"memkv", "tikv", "memkv", "badger"}
+var c07Engines = []string{"memkv", "tikv", "memkv", "badger", "tikv/split", "memkv/parts", "tikv/split"}
 
 const c07Chunks = 4
 
@@ -39,7 +39,7 @@ func init() {
 	Registry["C07"] = &Prop{
 		Plan: func(tier string) Plan {
 			return Plan{Level: "fault_enumeration", NCases: pick(tier, 16*c07Chunks, 1500*c07Chunks), Batch: 2, CaseTimeout: 300,
-				Rule: "histories are PRNG sequential write scripts (multi-version keys, tombstones below/at/above R, re-created keys, keys in skipped prefixes and outside the node's prefix) rebuilt identically on a fresh engine for every execution; " +
+				Rule: "histories are PRNG sequential write scripts (multi-version keys, tombstones below/at/above R, re-created keys, keys in skipped prefixes and outside the node's prefix) rebuilt identically on a fresh engine for every execution (memkv, Badger, TiKV mock; in 3 of 7 histories the engine reports several partitions whose borders lie at index records, inside a key's versions or at unstored keys); " +
 					"for EVERY delete call i=1..D that a clean Compact(R) of the history makes (D learned from a dry run; positions are split over 4 cases per history) two executions are made: (a) delete i fails (generic error; compare-and-delete calls also with a failed-compare error), (b) every delete from i on fails (compactor died after i-1 deletions) and a NEW backend is opened on the store; and where delete i removes an index record, (c) a client re-creates that key right before the removal (placed through the storage wrapper). " +
 					"After each: all reads at revisions >= R (Get every key, List inside/outside the prefix, at R, at checkpoints above R and at latest) must equal the reference snapshot, then a clean Compact(R), the same reads again, then create/update/delete on every key against the reference; records outside the compaction ranges must be byte-identical. Every 5th history is instead the concurrent variant (writers on the keys being compacted while Compact runs). " +
 					"evaluations = executions (history x position x mode); non-trivial+distinct = executions in which the injected fault actually fired, identified by (history, position, mode)",
@@ -62,7 +62,8 @@ type c07Hist struct {
 	ops      []harness.SeqOp
 	keys     []string
 	cfg      c07Config
-	compactI int // Compact(R) is taken at the checkpoint after op compactI
+	compactI int   // Compact(R) is taken at the checkpoint after op compactI
+	partSeed int64 // draws the partition borders of the engines that report several partitions
 }
 
 func genC07History(r *rand.Rand, cfg c07Config) *c07Hist {
@@ -106,6 +107,7 @@ func genC07History(r *rand.Rand, cfg c07Config) *c07Hist {
 		h.ops = append(h.ops, op)
 	}
 	h.compactI = n/3 + r.Intn(n/2)
+	h.partSeed = r.Int63()
 	return h
 }
 
@@ -153,13 +155,25 @@ func (s *c07Store) delFault(kind string, key []byte) error {
 
 // build replays the history on a fresh engine; with check=true outcomes are compared with the model.
 func buildC07(c *harness.Case, kind string, h *c07Hist) *c07Store {
-	eng, err := harness.NewEngine(kind)
-	if err != nil {
-		c.Inconclusive(err.Error())
-		return nil
+	var eng *harness.Engine
+	var kv storage.KvStorage
+	if strings.Contains(kind, "/") {
+		// the engine reports several partitions, with borders at index records, inside a key's versions or at keys
+		// that are never stored (the same borders every time the history is rebuilt)
+		var ok bool
+		if kv, eng, _, ok = partitionedStore(c, newRand(h.partSeed), strings.Split(kind, "/")[0], h.keys, 1000, len(h.ops)); !ok {
+			return nil
+		}
+	} else {
+		var err error
+		if eng, err = harness.NewEngine(kind); err != nil {
+			c.Inconclusive(err.Error())
+			return nil
+		}
+		kv = eng.KV
 	}
 	s := &c07Store{eng: eng, m: harness.NewModel()}
-	s.w = harness.NewWrap(eng.KV)
+	s.w = harness.NewWrap(kv)
 	s.w.DelFault = s.delFault
 	s.n = harness.NewNode(harness.NodeOpts{KV: s.w, Config: backend.Config{SkippedPrefixes: h.cfg.skipped, WatchCacheSize: 16}})
 	for i, op := range h.ops {
@@ -552,6 +566,9 @@ func runC07Concurrent(c *harness.Case, kind string) {
 		}
 	}()
 	cr.run(c)
+	if cr.stalled {
+		return
+	}
 	atomic.StoreInt32(&stop, 1)
 	cwg.Wait()
 	// a last compaction at the highest floor, then judge only reads after it returned
